@@ -17,7 +17,7 @@
    matches + 1 under g; matchAll: matches + 1 under g, else 1; search: 1; split: one per probed position).
 
    What is NOT modelled: regular-expression engine semantics.  The matcher is defined by brute force for a menu of
-   twelve patterns built from one-character classes, ordered alternation, one greedy star, ^ / $ and one capture
+   thirteen patterns built from one-character classes, ordered alternation, one greedy star, ^ / $ and one capture
    group (operator MatchAt: ordered alternatives, backtracking into the star), over subjects that are sequences of
    four code-unit classes:  a, b, H (a high surrogate) and L (a low surrogate); "H L" adjacent is a surrogate pair
    = ONE character under u (class X, two code units wide), two characters otherwise; lone H / lone L are
@@ -63,7 +63,7 @@ VARIABLES pat,        \* "none" before construction, then the pattern name
           act         \* last action with arguments and SPECIFIED result (output only, hidden by VIEW)
 vars == <<pat, flags, li, act>>
 
-AllPats == {"a", "ab", "(?:)", "b*", "b{0,2}", "a|b", ".", "^a", "a$", "astral", "loneH", "(a)|b"}
+AllPats == {"a", "ab", "(?:)", "b*", "b{0,2}", "a|b", ".", "^a", "a$", "astral", "loneH", "(a)|b", "(?<n>a)|b"}
 Units == {"a", "b", "H", "L"}
 Subjects == UNION {[1..k -> Units] : k \in 0..MaxLen} \cup Extra
 UserLI == {-1, 0, 1, 2, 9}
@@ -117,8 +117,10 @@ Alts(p, u) ==
     \* \uD835: under u only a LONE high surrogate is this character (the half of a pair is part of X)
     [] p = "loneH"  -> << <<C1({"H"})>> >>
     [] p = "(a)|b"  -> << <<C1({"a"})>>, <<C1({"b"})>> >>
+    \* the same with a named group (the adaptor requires groups.n to be the capture)
+    [] p = "(?<n>a)|b"  -> << <<C1({"a"})>>, <<C1({"b"})>> >>
 \* the alternative that is wrapped in capture group 1 (0: the pattern has no group)
-CapAlt(p) == IF p = "(a)|b" THEN 1 ELSE 0
+CapAlt(p) == IF p \in {"(a)|b", "(?<n>a)|b"} THEN 1 ELSE 0
 NCaps(p) == IF CapAlt(p) = 0 THEN 0 ELSE 1
 
 \* positions reached after 0, 1, 2 ... characters of class set s starting at i (increasing)
